@@ -64,3 +64,13 @@ func verifRoundTripParams(w0 io.Writer, r0 io.Reader, x *Params) (y *Params, enc
 	decErr = y.Decode(r0)
 	return y, nil, decErr
 }
+
+func verifRoundTripTransaction(w0 io.Writer, r0 io.Reader, x Transaction) (y Transaction, encErr, decErr error) {
+	encErr = x.Encode(w0)
+	if encErr != nil {
+		return y, encErr, nil
+	}
+	verifLink(w0, r0)
+	decErr = y.Decode(r0)
+	return y, nil, decErr
+}
